@@ -474,6 +474,52 @@ func init() {
 			}
 			c.need("C15/expired-removed", loadMin, "call Storage.Remove(key)", instrCallMatcher(P.IMethod("server/kv", "Base", "Remove")),
 				[]Ev{guardRel("ExpiredAt<now", "<", loadOfField(fExpired), nowUnix)}, all, "an entry is deleted only when ExpiredAt < now")
+			// …and every expired entry is: from the expired edge no way back to the loop header (or out of the
+			// function) avoids the removal
+			{
+				rm := P.IMethod("server/kv", "Base", "Remove")
+				nExp, okRm := 0, true
+				for _, b := range loadMin.Blocks {
+					iff, ok := b.Instrs[len(b.Instrs)-1].(*ssa.If)
+					if !ok {
+						continue
+					}
+					for si := 0; si < 2; si++ {
+						r, okR := relOf(iff.Cond, si == 0)
+						if !okR || !matchRel(r, "<", loadOfField(fExpired), nowUnix) {
+							continue
+						}
+						nExp++
+						// walk from the expired successor; stop at blocks that remove
+						seen := map[*ssa.BasicBlock]bool{}
+						var walk func(x *ssa.BasicBlock) bool
+						walk = func(x *ssa.BasicBlock) bool {
+							if seen[x] {
+								return true
+							}
+							seen[x] = true
+							for _, ins := range x.Instrs {
+								if isCallTo(ins, rm) {
+									return true
+								}
+							}
+							if x == b || len(x.Succs) == 0 || x.Dominates(b) {
+								return false // back at the test, at the loop header, or out of the function: not removed
+							}
+							for _, s := range x.Succs {
+								if !walk(s) {
+									return false
+								}
+							}
+							return true
+						}
+						if !walk(b.Succs[si]) {
+							okRm = false
+						}
+					}
+				}
+				c.Check(nExp > 0 && okRm, "C15/expired-removed", "expired branch of "+fnName(loadMin), "an entry found expired is removed from storage before the scan goes on", P.pos(loadMin.Pos()), fmt.Sprintf("%d expiry tests", nExp))
+			}
 			// min = ssp only under ssp.SafePoint < min.SafePoint and not expired
 			minPhi := func(ins ssa.Instruction) bool {
 				// the block that continues the loop with min := ssp is the true successor of SafePoint<SafePoint
